@@ -149,6 +149,14 @@ func c18RunIn(hist []c18Action, queries bool) vh.HistResult {
 		{"zero-before", early, now, early, time.Time{}},
 		{"first-day-only", early, t0.Add(time.Minute), early, t0.Add(time.Minute)},
 	}
+	for _, a := range hist {
+		if a.Op == "month" {
+			// two months of (mostly missing) day files: the windows that span the whole history would
+			// dominate the run time; the day-sized windows are the ones a stale day file shows up in
+			windows = []window{windows[0], windows[1], windows[5]}
+			break
+		}
+	}
 	if os.Getenv("VERIF_TZ") != "" {
 		// the same instants carried by time values in UTC (a time.Time denotes an instant, whatever its zone)
 		windows = append(windows,
@@ -361,5 +369,5 @@ func TestC18(t *testing.T) {
 		},
 	}
 	h.Explore()
-	rep.Bound = fmt.Sprintf("all histories of <=%d writes and <=%d clock moves (to 23:59:59, +2 s, +24 h, to month end, to the same day of the month one or two months on), length <=%d; names %v, 2 hashes, with/without rename; in each distinct state: 2 logs x 5 names x {no hash,h1,h2} x 6 windows + Parse", maxW, maxC, depth, names)
+	rep.Bound = fmt.Sprintf("all histories of <=%d writes and <=%d clock moves (to 23:59:59, +2 s, +24 h, to month end, to the same day of the month one or two months on), length <=%d; names %v, 2 hashes, with/without rename; in each distinct state: 2 logs x 5 names x {no hash,h1,h2} x 6 windows (3 day-sized windows after a month move) + Parse", maxW, maxC, depth, names)
 }
